@@ -16,13 +16,24 @@ RULE = ('forward: for all 256 exponent pairs (K1, K2 in -8..7) x the formats uns
         'M = +1 and -1 (arguments of both signs: the cube root of negative arguments for every format, directed '
         'witnesses first), None; inverse: the real forward value of every such linear M != 0 case is '
         'converted back, plus seeded free values (negative, fractional, out of range, M = 0, non-linear).  The real '
-        'code is compared with the Lean model (tie) and with Spec.Sensor / the round-trip law (property).  A case is '
+        'code is compared with the Lean model (tie) and with Spec.Sensor / the round-trip law (property).  HISTORIES '
+        'on ONE record object (hidden state): construction path (blank record + assigned attributes | '
+        'SdrFullSensorRecord(data) from list / bytes / array | SdrCommon.from_data; the bytes come from the '
+        'specification\'s encoder Spec.Sdr.FullSensor.encode, driver op encfull) x first change (each of m, b, k1, k2, '
+        'analog_data_format, linearization, tolerance reassigned to a different value | _from_data of other bytes into '
+        'the same object | none) x 3 seeds, followed by the conversions made before the change (same readings again) '
+        'and new ones, forward and forward+inverse interleaved, plus 60 longer free histories (3..9 further changes / '
+        'conversions / free inverse values); every conversion is judged by Spec.Sensor over the values the record\'s '
+        'attributes have AT THAT MOMENT and tied to the history model (Sensor.runHistory, driver op hist); a failure is '
+        'named by the smallest set of attributes whose EARLIER value explains the result (C17:forward:stale-factors:k2 '
+        '...) and reported with the shortest sub-history that still shows it.  A case is '
         'distinct by (direction, fmt, lin, M, B, K1, K2, raw or value) and non-trivial when M*x or B is non-zero.  '
         'thorough: additionally the FULL product boundary M (15) x boundary B (16) x all 256 (K1, K2) x 3 formats '
         '(184 320 records) on 8 boundary + 8 seeded random raws each, forward and inverse (the quick exponent grid '
         'takes one (M, B) per (K1, K2, format)); every (M, B) in [-512, 511]^2 at K1 = K2 = 0 and on a stride at '
         'three other exponent pairs, formats cycling, eight boundary raws each (all time-guarded; evidence '
-        'exponent_product / exhaustive_MB_K0 say how far they got).')
+        'exponent_product / exhaustive_MB_K0 say how far they got); 40 histories per (path, first change) + 1500 free '
+        'ones.  search() (a tie broke, no failing input yet) runs 20 per combination + 1200 longer histories more.')
 ASSUMPTIONS = [
     'IEEE-754 double rounding of the Python arithmetic is modelled, not verified: the Lean model is exact (Rat); the '
     'forward argument is accepted when |python - exact| <= 2^-40 * (|M*x| + |B|*10^K1) * 10^K2 (condition-aware bound, '
@@ -54,6 +65,10 @@ ASSUMPTIONS = [
     'hand-written (lean/PyIpmi/Model/Sensor.lean) and tied by this correspondence run only: the control skeleton '
     '(order of guards, ZeroDivisionError for M = 0, None -> None), round(), the call of self.lin; the linearisation '
     'dispatch table is regenerated (Gen/SdrTables.lean)',
+    'the record OBJECT is modelled by the tuple of the six attributes the conversions read (Sensor.Rec; histories: '
+    'Sensor.Step / runHistory / stateAfter): no other conversion-relevant state exists in the model.  Theorems '
+    'history_split, history_forward_current, history_roundtrip_current, history_other_irrelevant state the property for '
+    'every history; that the real object has no such state either is tied by the history stream of this run only',
     'the deviations of the ORIGINAL pinned source stay in the model as Variant flags (inverse formula, negative '
     'encoding, cube root as math.pow(x, 1.0/3)): inverse_*_counterexample, cubert_negative_counterexample and '
     'shipped_cubert_rejects_negatives are theorems about the frozen asShipped variant; the generated expressions / the '
@@ -107,6 +122,7 @@ SHAPE_FN[12] = lambda x: math.copysign(math.pow(abs(x), 1.0 / 3), x)
 EXACT_TAGS = (0, 7, 8, 9)
 
 _tab = None
+_last_run = None
 
 
 def translate(ctx):
@@ -242,9 +258,15 @@ class _Run(object):
         self.present = set(n for n, f in (('C17:inverse-roundtrip:formula', self.fs),
                                           ('C17:inverse-roundtrip:negative-encoding', self.ss)) if f)
 
+    defer = None
+
     def violate(self, sig, what, case, expected, observed):
         # keep the first (most directed) witness of every signature; count the rest
         self.ctx.count('violations:' + sig)
+        if self.defer is not None:
+            if sig not in self.sig_seen:
+                self.defer.append((sig, what, case, expected, observed))
+            return
         if sig not in self.sig_seen:
             self.sig_seen.add(sig)
             self.ctx.violate(sig, what, case, expected=expected, observed=observed)
@@ -459,6 +481,603 @@ class _Run(object):
                     ctx.disagree('inverse-free', case, model, code)
 
 
+
+# ---------------------------------------------------------------------------------------------
+# record HISTORIES (hidden state): ONE record object per history; construction path x later reassignment of every
+# factor attribute x re-decoding into the same object x forward / inverse conversions interleaved.  Every conversion is
+# judged by Spec.Sensor over the values the record's attributes have AT THAT MOMENT ("from the record's own factors").
+
+FULL_ORDER = ['rid', 'ver', 'oid', 'ch', 'lun', 'num', 'eid', 'einst', 'ini', 'cap', 'st', 'et', 'am', 'dm', 'rm',
+              'fmt', 'rate', 'mod', 'pct', 'bu', 'mu', 'lin', 'm', 'tol', 'b', 'acc', 'accx', 'dir', 'rexp', 'bexp',
+              'af', 'nom', 'nmax', 'nmin', 'smax', 'smin', 'unr', 'ucr', 'unc', 'lnr', 'lcr', 'lnc', 'ph', 'nh', 'oem']
+# attribute of the record object -> (short name, key of the abstract record the Spec encoder takes)
+HIST_ATTRS = [('m', 'm'), ('b', 'b'), ('k1', 'bexp'), ('k2', 'rexp'), ('analog_data_format', 'fmt'),
+              ('linearization', 'lin'), ('tolerance', 'tol')]
+FACTOR_ATTRS = ('analog_data_format', 'linearization', 'm', 'b', 'k1', 'k2')
+SHORT = {'analog_data_format': 'fmt', 'linearization': 'lin', 'm': 'm', 'b': 'b', 'k1': 'k1', 'k2': 'k2',
+         'tolerance': 'tolerance'}
+HIST_PATHS = ['blank', 'decoded:list', 'decoded:bytes', 'decoded:array', 'from_data:list', 'from_data:bytes']
+
+
+def _hist_spec_line(f, idc):
+    return 'encfull %s %s' % (' '.join(str(f[k]) for k in FULL_ORDER), ','.join(str(c) for c in idc) if idc else '-')
+
+
+def _hist_u8(rng):
+    return rng.choice((0, 1, 0x7f, 0x80, 0xfe, 0xff)) if rng.random() < 0.3 else rng.randrange(256)
+
+
+def _hist_factors(rng, blank=False):
+    r = rng.random()
+    lin = 0 if r < 0.7 else rng.randrange(1, 12) if r < 0.95 else rng.randrange(12, 128)
+    if blank and rng.random() < 0.2:
+        lin |= 0x80
+    b = rng.choice(BOUNDARY_B) if rng.random() < 0.4 else rng.randrange(-512, 512)
+    m = rng.choice(BOUNDARY_M + [0]) if rng.random() < 0.4 else rng.randrange(-512, 512)
+    return {'analog_data_format': rng.choice((0, 1, 2, 2, 1, 0, 3)), 'linearization': lin, 'm': m, 'b': b,
+            'k1': rng.randrange(-8, 8), 'k2': rng.randrange(-8, 8), 'tolerance': rng.randrange(64)}
+
+
+def _hist_abstract(rng, fac):
+    """An abstract full sensor record (argument of the specification's encoder) with the given factors."""
+    u8 = lambda: _hist_u8(rng)   # noqa
+    f = dict(rid=rng.randrange(65536), ver=0x51, oid=u8(), ch=rng.randrange(16), lun=rng.randrange(4), num=u8(),
+             eid=u8(), einst=u8(), ini=u8(), cap=u8(), st=u8(), et=u8(), am=rng.randrange(65536),
+             dm=rng.randrange(65536), rm=rng.randrange(65536), fmt=fac['analog_data_format'], rate=rng.randrange(8),
+             mod=rng.randrange(4), pct=rng.randrange(2), bu=u8(), mu=u8(), lin=fac['linearization'] & 0x7f,
+             m=fac['m'], tol=fac['tolerance'], b=fac['b'], acc=rng.choice((0, 63, 64, 1023, rng.randrange(1024))),
+             accx=rng.randrange(4), dir=rng.randrange(4), rexp=fac['k2'], bexp=fac['k1'], af=rng.randrange(8),
+             nom=u8(), nmax=u8(), nmin=u8(), smax=u8(), smin=u8(), unr=u8(), ucr=u8(), unc=u8(), lnr=u8(), lcr=u8(),
+             lnc=u8(), ph=u8(), nh=u8(), oem=u8())
+    idc = [rng.randrange(0x20, 0x7f) for _ in range(rng.choice((0, 1, 5, 16, rng.randrange(17))))]
+    return _hist_spec_line(f, idc)
+
+
+def _hist_new_value(rng, attr, old):
+    for _ in range(50):
+        if attr in ('m', 'b'):
+            v = rng.choice(BOUNDARY_B) if rng.random() < 0.4 else rng.randrange(-512, 512)
+        elif attr in ('k1', 'k2'):
+            v = rng.randrange(-8, 8)
+        elif attr == 'analog_data_format':
+            v = rng.randrange(4)
+        elif attr == 'linearization':
+            r = rng.random()
+            v = rng.choice((0, 0x80)) if r < 0.5 else rng.randrange(1, 12) | rng.choice((0, 0x80)) if r < 0.9 \
+                else rng.randrange(12, 128)
+        else:
+            v = rng.randrange(64)
+        if v != old:
+            return v
+    return v
+
+
+def _hist_raw(rng):
+    return rng.choice((0, 1, 2, 127, 128, 129, 254, 255)) if rng.random() < 0.4 else rng.randrange(256)
+
+
+def gen_history(rng, path, first, extra):
+    """One history as a list of abstract steps.  `first` is the first mutation ('set:<attr>' | 'decode' | None),
+    `extra` the number of further random steps.  Every mutation is followed by the conversions made before it
+    (same raw readings again) and a new one."""
+    fac = _hist_factors(rng, blank=(path == 'blank'))
+    h = {'op': 'history', 'path': path, 'init': dict(fac), 'steps': []}
+    if path != 'blank':
+        fac['linearization'] &= 0x7f
+        h['init'] = dict(fac)
+        h['abstract'] = _hist_abstract(rng, fac)
+    cur = dict(fac)
+    seen = []
+
+    def conv():
+        x = _hist_raw(rng)
+        seen.append(x)
+        h['steps'].append([rng.choice(('fwd', 'rt', 'rt')), x])
+
+    def again():
+        for x in seen[-3:]:
+            h['steps'].append([rng.choice(('fwd', 'rt')), x])
+
+    def mutate(kind):
+        if kind == 'decode':
+            nf = _hist_factors(rng)
+            nf['linearization'] &= 0x7f
+            h['steps'].append(['decode', _hist_abstract(rng, nf), dict(nf)])
+            cur.update(nf)
+        else:
+            attr = kind.split(':')[1]
+            v = _hist_new_value(rng, attr, cur[attr])
+            h['steps'].append(['set', attr, v])
+            cur[attr] = v
+
+    for _ in range(rng.randrange(0, 3)):
+        conv()
+    if first:
+        mutate(first)
+        again()
+        conv()
+    for _ in range(extra):
+        r = rng.random()
+        if r < 0.45:
+            mutate('set:' + rng.choice(HIST_ATTRS)[0])
+            again()
+        elif r < 0.55:
+            mutate('decode')
+            again()
+        elif r < 0.65:
+            h['steps'].append(['inv', repr(float(rng.randrange(-600, 600)) / rng.choice((1, 1, 8)))])
+        else:
+            conv()
+    again()
+    return h
+
+
+def _container(data, how):
+    if how == 'bytes':
+        return bytes(bytearray(data))
+    if how == 'array':
+        import array
+        return array.array('B', data)
+    return list(data)
+
+
+def _py_forward_expect(fns, fac, x):
+    """The harness's own reading of the forward clause for a factor tuple (classification of a failure only; the
+    verdict comes from Spec.Sensor): ('err', 'DecodingError') | _expect(...)."""
+    code = fac['linearization'] & 0x7f
+    if code > 11:
+        return ('err', 'DecodingError')
+    sx = _signed(fac['analog_data_format'], x)
+    a1, b1 = _p10(fac['k1'])
+    a2, b2 = _p10(fac['k2'])
+    an, ad = (fac['m'] * sx * b1 + fac['b'] * a1) * a2, b1 * b2
+    sn, sd = _scale(fac['m'], fac['b'], fac['k1'], fac['k2'], sx)
+    return _expect(fns, code, an, ad, sn, sd)
+
+
+def _expect(fns, tag, an, ad, sn, sd):
+    """What function `tag` of `fns` gives on the exact argument an/ad known to the double arithmetic within
+    delta = 2^-TOL * sn/sd: ('ok', lo, hi) | ('err', class) | ('ambiguous',)."""
+    from fractions import Fraction
+    if tag not in fns:
+        return ('err', 'TieBroken')
+    a = float(Fraction(an, ad))
+    d = float(Fraction(sn, sd)) * 2.0 ** -TOL_BITS
+    pts = [a - d, a, a + d]
+    if tag == 8 and a - d < 0 < a + d:
+        pts.append(0.0)
+    if tag == 7 and d > 0 and a - d <= 0 <= a + d:
+        return ('ambiguous',)
+    res = [_call(fns[tag], p) for p in pts]
+    if all(r[0] == 'err' for r in res):
+        return ('err', res[0][1]) if len(set(r[1] for r in res)) == 1 else ('ambiguous',)
+    if any(r[0] == 'err' for r in res):
+        return ('ambiguous',)
+    vals = [r[1] for r in res]
+    return ('ok', min(vals), max(vals))
+
+
+def _match(real, exp):
+    """True / False / None (ambiguous)."""
+    if exp[0] == 'ambiguous':
+        return None
+    if exp[0] == 'err':
+        return real == exp
+    if real[0] != 'ok' or not isinstance(real[1], float) or real[1] != real[1]:
+        return False
+    lo, hi = exp[1], exp[2]
+    slack = math.ldexp(max(abs(lo), abs(hi)), -(TOL_BITS - 2))
+    return lo - slack <= real[1] <= hi + slack
+
+
+def _py_inverse(fac, v):
+    """Exact inverse clause for a factor tuple (classification only): raw byte or None."""
+    from fractions import Fraction
+    if fac['m'] == 0 or fac['linearization'] & 0x7f:
+        return None
+    a1, b1 = _p10(fac['k1'])
+    a2, b2 = _p10(-fac['k2'])
+    q = (Fraction(v) * Fraction(a2, b2) - fac['b'] * Fraction(a1, b1)) / fac['m']
+    r = int(round(q))          # Fraction.__round__: half to even
+    fmt = fac['analog_data_format']
+    if r < 0 and fmt == 1:
+        return (r + 255) & 0xff
+    if r < 0 and fmt == 2:
+        return (r + 256) & 0xff
+    return r
+
+
+class _History(object):
+    """Executes one history on ONE record object of the real code and judges every conversion."""
+
+    def __init__(self, run, h, specs, index=None):
+        self.run = run
+        self.h = h
+        self.specs = specs          # abstract line -> bytes (from the specification's encoder)
+        self.index = index
+        self.snapshots = []         # factor tuples the record had earlier in this history
+        self.kept = []              # (step, raw, factors, result) of earlier conversions
+
+    def build(self):
+        from pyipmi.sdr import SdrFullSensorRecord, SdrCommon
+        h = self.h
+        kind, _, how = h['path'].partition(':')
+        if kind == 'blank':
+            obj = SdrFullSensorRecord()
+            for a in FACTOR_ATTRS + ('tolerance',):
+                setattr(obj, a, h['init'][a])
+            return obj
+        data = _container(self.specs[h['abstract']], how)
+        if kind == 'decoded':
+            return SdrFullSensorRecord(data)
+        return SdrCommon.from_data(data)
+
+    @staticmethod
+    def factors(obj):
+        return dict((a, getattr(obj, a, None)) for a in FACTOR_ATTRS)
+
+    def execute(self, verbose=False):
+        run, ctx, h = self.run, self.run.ctx, self.h
+        obj = self.build()
+        if type(obj).__name__ != 'SdrFullSensorRecord':
+            ctx.count('history:not-a-full-record')      # record classes are C16's property
+            return
+        shadow = dict((a, h['init'][a]) for a in FACTOR_ATTRS)
+        ctx.count('history:path:' + h['path'])
+        self.snapshots.append(dict(shadow))
+        # pass 1: the specification's / the model's answers for the factor tuple every conversion step should see
+        # (the shadow); pass 2 executes and asks again where the record's attributes differ from the shadow
+        plan = []
+        sh = dict(shadow)
+        for st in h['steps']:
+            if st[0] == 'set' and st[1] in sh:
+                sh[st[1]] = st[2]
+            elif st[0] == 'decode':
+                sh.update((a, st[2][a]) for a in FACTOR_ATTRS)
+            plan.append(dict(sh))
+        lines = []
+        hist = ['hist %d %d' % (run.fs or 0, run.ss or 0)] + [str(shadow[a]) for a in FACTOR_ATTRS]
+        for st, fac in zip(h['steps'], plan):
+            if st[0] in ('fwd', 'rt'):
+                lines.append('spec %d %d %d %d %d %d %d' % (tuple(fac[a] for a in FACTOR_ATTRS) + (st[1],)))
+                hist += ['F', str(st[1])]
+            elif st[0] == 'set':
+                hist += ['S', SHORT[st[1]], str(st[2])] if st[1] in FACTOR_ATTRS else ['O']
+            elif st[0] == 'decode':
+                hist += ['D'] + [str(st[2][a]) for a in FACTOR_ATTRS]
+            elif st[0] == 'inv':
+                hist += ['I', _frac_tok(float(st[1]))]
+        # the whole history goes through the history model (Sensor.runHistory) in ONE request
+        got = run.drv.ask_many(lines + [' '.join(hist)])
+        answers = iter(got[:-1])
+        manswers = iter(got[-1].split(' ; ') if got[-1] else [])
+        last_mut = None
+        for i, (st, fac) in enumerate(zip(h['steps'], plan)):
+            if st[0] == 'set':
+                setattr(obj, st[1], st[2])
+                ctx.count('history:set:' + SHORT[st[1]])
+                last_mut = 'set:' + SHORT[st[1]]
+                if verbose:
+                    print('  step %d: record.%s = %r' % (i, st[1], st[2]))
+            elif st[0] == 'decode':
+                obj._from_data(list(self.specs[st[1]]))
+                ctx.count('history:re-decode')
+                last_mut = 're-decode'
+                if verbose:
+                    print('  step %d: record._from_data(<%d bytes, factors %s>)' % (i, len(self.specs[st[1]]), st[2]))
+            if st[0] in ('set', 'decode'):
+                now = self.factors(obj)
+                if now not in self.snapshots and all(isinstance(now[a], int) for a in FACTOR_ATTRS):
+                    self.snapshots.append(now)
+            elif st[0] == 'inv':
+                self.inverse_free(obj, i, float(st[1]), verbose, next(manswers, 'missing'), fac)
+            else:
+                sp, mp = next(answers), next(manswers, 'missing')
+                now = self.factors(obj)
+                if now != fac:
+                    if not all(isinstance(now[a], int) for a in FACTOR_ATTRS):
+                        ctx.count('history:attributes-not-integers')
+                        continue
+                    # the decoding gave other attribute values than the encoder was given: C16's property; the
+                    # conversion is judged by the record's own (current) attributes
+                    ctx.count('history:attributes-differ-from-encoded')
+                    t = tuple(now[a] for a in FACTOR_ATTRS) + (st[1],)
+                    sp = run.drv.ask('spec %d %d %d %d %d %d %d' % t)
+                    mp = run.drv.ask('fwd %d %d %d %d %d %d %d' % t)
+                if now not in self.snapshots:
+                    self.snapshots.append(dict(now))
+                self.convert(obj, i, st, now, sp, mp, last_mut, verbose)
+
+    def case(self, i):
+        c = dict(self.h)
+        c['fail_step'] = i
+        return c
+
+    def convert(self, obj, i, st, fac, sp, mp, last_mut, verbose):
+        run, ctx = self.run, self.run.ctx
+        x = st[1]
+        fmt, lin, m, b, k1, k2 = (fac[a] for a in FACTOR_ATTRS)
+        rec = (fmt, lin, m, b, k1, k2)
+        sx = _signed(fmt, x)
+        ctx.case(('h', self.h['path'], last_mut, i > 0) + rec + (x,), nontrivial=(m * sx != 0 or b != 0))
+        ctx.count('history:forward-after:' + (last_mut or 'construction'))
+        real = _call(obj.convert_sensor_raw_to_value, x)
+        if verbose:
+            print('  step %d: convert_sensor_raw_to_value(%d) -> %s   [record: fmt=%s lin=%d M=%d B=%d K1=%d K2=%d; '
+                  'Spec.Sensor: %s]' % ((i, x, real, FMT_NAME.get(fmt, fmt)) + rec[1:] + (sp,)))
+        sn, sd = _scale(m, b, k1, k2, sx)
+        # ---- property (Spec.Sensor over the current attributes)
+        if sp == 'DecodingError':
+            sexp = ('err', 'DecodingError')
+        else:
+            _, stag, sarg, _ = sp.split(' ')
+            sexp = _expect(ORACLE_FN, int(stag), *(_rat(sarg) + (sn, sd)))
+        ok = _match(real, sexp)
+        if ok is None:
+            ctx.count('history:forward-ambiguous')
+        # ---- tie (the model is a function of the current factor tuple only)
+        if mp == 'DecodingError':
+            mexp = ('err', 'DecodingError')
+        else:
+            _, mtag, marg, mres = mp.split(' ')
+            mexp = ('err', mres[3:]) if mres.startswith('py:') and int(mtag) not in EXACT_TAGS else \
+                _expect(SHAPE_FN, int(mtag), *(_rat(marg) + (sn, sd)))
+        if _match(real, mexp) is False:
+            ctx.disagree('forward-history', dict(self.case(i), factors=fac), str(mexp), str(real))
+        value = None
+        if ok is False:
+            # does a FRESH blank record with the same current factors fail too?  then the defect does not depend on
+            # the history: the signature of the grid streams names it (and their directed witnesses come first)
+            fresh = _call(_mkrec(*rec).convert_sensor_raw_to_value, x)
+            stateless = _match(fresh, sexp) is False
+            stale = None if stateless else self.classify_forward(real, fac, x)
+            if stale == 'cap':
+                ctx.count('violations:C17:forward:(history, not classified)')
+                self.kept.append((i, x, dict(fac), real))
+                return
+            if stateless:
+                ctx.count('history:failure-independent-of-history')
+                if sexp[0] == 'err' or (lin & 0x7f):
+                    cut = sexp[0] == 'ok' and real[0] == 'err' and sp.split(' ')[2].startswith('-')
+                    sig = 'C17:forward:lin:bit7-not-masked' if (sexp[0] == 'ok' and lin >= 0x80 and real ==
+                                                                ('err', 'DecodingError')) else \
+                        'C17:forward:lin=%d%s' % ((lin & 0x7f) if sexp[0] == 'ok' else lin,
+                                                   ':negative-argument' if cut else '')
+                else:
+                    sig = 'C17:forward:arg:%s%s' % (FMT_NAME.get(fmt, fmt), ':raw>=128' if x >= 128 else '')
+            else:
+                sig = 'C17:forward:stale-factors:%s' % '+'.join(stale) if stale else \
+                    'C17:forward:history:%s' % self.h['path'].split(':')[0]
+            run.violate(sig,
+                        'step %d of a history on one record (%s%s): convert_sensor_raw_to_value(%d) = %s, the formula over '
+                        'the record\'s current factors fmt=%s lin=%d M=%d B=%d K1=%d K2=%d gives %s%s'
+                        % (i, self.h['path'], ', last change: %s' % last_mut if last_mut else '', x, real,
+                           FMT_NAME.get(fmt, fmt), lin, m, b, k1, k2, sexp,
+                           '; the result is the formula with the EARLIER value of %s' % ', '.join(stale) if stale else ''),
+                        self.case(i), str(sexp), str(real))
+        elif ok and (lin & 0x7f) == 0 and real[0] == 'ok':
+            value = real[1]
+        # ---- earlier results stay what they were (kept, compared again)
+        for (j, x0, fac0, real0) in self.kept:
+            if x0 == x and fac0 == fac and real0 != real and not (real0[0] == 'ok' and real[0] == 'ok' and
+                                                                 _rel_close(real0[1], real[1])):
+                if ok is not False:
+                    run.violate('C17:forward:history:not-repeatable',
+                                'the same reading %d with the same factors gave %s at step %d and %s at step %d'
+                                % (x, real0, j, real, i), self.case(i), str(real0), str(real))
+        self.kept.append((i, x, dict(fac), real))
+        # ---- inverse of that value on the same object
+        if st[0] == 'rt' and value is not None and m != 0:
+            back = _call(obj.convert_sensor_value_to_raw, value)
+            code = 'ok %d' % back[1] if back[0] == 'ok' and isinstance(back[1], int) else \
+                _err_tag(back[1]) if back[0] == 'err' else 'ok %r' % (back[1],)
+            if verbose:
+                print('  step %d: convert_sensor_value_to_raw(%r) -> %s   [property: %d]' % (i, value, back, x))
+            a = run.drv.ask('inv %d %d %d %d %d %d %d %d %s' % ((run.fs or 0, run.ss or 0) + rec + (_frac_tok(value),)))
+            at = a.split(' ')
+            model = ' '.join(at[:2]) if at[0] == 'ok' else a
+            if model != code:
+                if at[0] == 'ok' and _near_half(*_rat(at[2]), rec=rec, value=value):
+                    ctx.count('inverse:rounding-ambiguous')
+                else:
+                    ctx.disagree('inverse-history', dict(self.case(i), factors=fac, value=repr(value)), model, code)
+            if fmt == 1 and x == 0xff:
+                ctx.count('inverse:negzero-excluded')
+                return
+            ctx.count('history:roundtrip-checked')
+            if back != ('ok', x):
+                if _call(_mkrec(*rec).convert_sensor_value_to_raw, value) != ('ok', x):
+                    # a fresh blank record with these factors fails too: independent of the history, the grid
+                    # streams (all 256 readings x exponent grid, directed witnesses) name it
+                    ctx.count('history:failure-independent-of-history')
+                    if not any(y.startswith('C17:inverse-roundtrip:') for y in run.sig_seen):
+                        run.violate('C17:inverse-roundtrip:other',
+                                    'value_to_raw(raw_to_value(%d)) = %s for fmt=%s M=%d B=%d K1=%d K2=%d (value %r)'
+                                    % (x, code, FMT_NAME.get(fmt, fmt), m, b, k1, k2, value), self.case(i),
+                                    'ok %d' % x, code)
+                    return
+                stale = self.classify_inverse(back, fac, value)
+                if stale == 'cap':
+                    ctx.count('violations:C17:inverse-roundtrip:(history, not classified)')
+                    return
+                if stale:
+                    sig = 'C17:inverse-roundtrip:stale-factors:%s' % '+'.join(stale)
+                elif run.present:
+                    # a known deviation of the inverse is present (probed): the directed witnesses name it
+                    ctx.count('violations:C17:inverse-roundtrip:(history, known deviation present)')
+                    return
+                else:
+                    sig = 'C17:inverse-roundtrip:history:%s' % self.h['path'].split(':')[0]
+                run.violate(sig,
+                            'step %d of a history on one record (%s%s): value_to_raw(raw_to_value(%d)) = %s with the '
+                            'current factors fmt=%s M=%d B=%d K1=%d K2=%d (value %r)%s'
+                            % (i, self.h['path'], ', last change: %s' % last_mut if last_mut else '', x, code,
+                               FMT_NAME.get(fmt, fmt), m, b, k1, k2, value,
+                               '; that is the inverse with the EARLIER value of %s' % ', '.join(stale) if stale else ''),
+                            self.case(i), 'ok %d' % x, code)
+
+    def inverse_free(self, obj, i, v, verbose, a, planned):
+        """tie only: the history model's inverse (over the record's current attributes)."""
+        run, ctx = self.run, self.run.ctx
+        fac = self.factors(obj)
+        if not all(isinstance(fac[a_], int) for a_ in FACTOR_ATTRS):
+            return
+        rec = tuple(fac[a_] for a_ in FACTOR_ATTRS)
+        real = _call(obj.convert_sensor_value_to_raw, v)
+        if verbose:
+            print('  step %d: convert_sensor_value_to_raw(%r) -> %s' % (i, v, real))
+        code = 'ok %d' % real[1] if real[0] == 'ok' and isinstance(real[1], int) else \
+            _err_tag(real[1]) if real[0] == 'err' else 'ok %r' % (real[1],)
+        if fac != planned:
+            a = run.drv.ask('inv %d %d %d %d %d %d %d %d %s' % ((run.fs or 0, run.ss or 0) + rec + (_frac_tok(v),)))
+        at = a.split(' ')
+        model = ' '.join(at[:2]) if at[0] == 'ok' else a
+        ctx.count('history:inverse-free')
+        if model != code:
+            if at[0] == 'ok' and _near_half(*_rat(at[2]), rec=rec, value=v):
+                ctx.count('inverse:rounding-ambiguous')
+            else:
+                ctx.disagree('inverse-history', dict(self.case(i), factors=fac, value=repr(v)), model, code)
+
+    def _hybrids(self, fac):
+        """current factors with a non-empty subset of attributes taken from an earlier state of this record,
+        smallest subsets first."""
+        import itertools
+        names = ('b', 'k1', 'k2', 'm', 'analog_data_format', 'linearization')
+        for n in range(1, len(names) + 1):
+            for sub in itertools.combinations(names, n):
+                for old in self.snapshots:
+                    if all(old[a] != fac[a] for a in sub):
+                        hy = dict(fac)
+                        hy.update((a, old[a]) for a in sub)
+                        yield sub, hy
+
+    def classify_forward(self, real, fac, x):
+        if self.run.n_classified >= 300:
+            return 'cap'
+        self.run.n_classified += 1
+        for sub, hy in self._hybrids(fac):
+            if _match(real, _py_forward_expect(ORACLE_FN, hy, x)):
+                return [SHORT[a] for a in sub]
+        return None
+
+    def classify_inverse(self, back, fac, value):
+        if back[0] != 'ok':
+            return None
+        if self.run.n_classified >= 300:
+            return 'cap'
+        self.run.n_classified += 1
+        for sub, hy in self._hybrids(fac):
+            if _py_inverse(hy, value) == back[1]:
+                return [SHORT[a] for a in sub]
+        return None
+
+
+def _histories(run, rng, per_combo, free, label='histories'):
+    """construction path x first mutation (every factor attribute, tolerance, re-decode, none) x seeds, then free
+    histories; the bytes come from the specification's encoder (driver op encfull)."""
+    ctx = run.ctx
+    hs = []
+    firsts = ['set:' + a for a, _ in HIST_ATTRS] + ['decode', None]
+    for path in HIST_PATHS:
+        for first in firsts:
+            for _ in range(per_combo):
+                hs.append(gen_history(rng, path, first, rng.randrange(0, 4)))
+    for _ in range(free):
+        hs.append(gen_history(rng, rng.choice(HIST_PATHS), rng.choice(firsts), rng.randrange(3, 10)))
+    specs = _encode_all(run.drv, hs)
+    for n, h in enumerate(hs):
+        ctx.count('stream:' + label)
+        run.defer = []
+        try:
+            _History(run, h, specs, n).execute()
+        finally:
+            found, run.defer = run.defer, None
+        for sig in sorted(set(f[0] for f in found)):
+            if sig in run.sig_seen:
+                continue
+            # report the shortest history that still shows this signature (steps dropped greedily)
+            small = None
+            if ':stale-factors:' in sig and '+' in sig:
+                # several attributes changed in this history: look for a sub-history that shows ONE stale attribute
+                prefix = sig.rsplit(':', 1)[0] + ':'
+                small = _shrink(run, h, lambda y: y.startswith(prefix) and '+' not in y, specs, strict=True)
+                if small is not None and small[0] in run.sig_seen:
+                    continue
+            small = small or _shrink(run, h, lambda y: y == sig, specs)
+            ctx.violate(*small)
+            run.sig_seen.add(small[0])
+    return len(hs)
+
+
+def _scratch_violations(run, h, specs):
+    c2 = run.ctx.__class__('C17', 'quick', 0)
+    r2 = _Run(c2, run.drv, (run.fs, run.ss))
+    r2.n_classified = -10 ** 6
+    _History(r2, h, specs).execute()
+    return c2.violations
+
+
+def _shrink(run, h, pred, specs, strict=False):
+    def shows(hh):
+        for y in _scratch_violations(run, hh, specs):
+            if pred(y['signature']):
+                return (y['signature'], y['what'], y['case'], y['expected'], y['observed'])
+        return None
+
+    def first_step(hh):
+        # the conversion-free prefix cannot be cut; candidates: drop one step
+        for i in reversed(range(len(hh['steps']))):
+            cand = dict(hh, steps=hh['steps'][:i] + hh['steps'][i + 1:])
+            got = shows(cand)
+            if got is not None:
+                return cand, got
+        return None
+    best = shows(h)
+    cur = dict(h)
+    if best is None:
+        if not strict:      # not reproducible on a fresh object?  should not happen: report as found
+            sigs = [y for y in _scratch_violations(run, h, specs)]
+            y = sigs[0] if sigs else {'signature': 'C17:forward:history:not-reproducible', 'what': 'history',
+                                      'case': dict(h), 'expected': '', 'observed': ''}
+            return (y['signature'], y['what'], y['case'], y['expected'], y['observed'])
+        # the wanted (single-attribute) signature may only appear after steps are dropped
+        for _ in range(len(h['steps'])):
+            nxt = first_step(cur)
+            if nxt is not None:
+                cur, best = nxt
+                break
+            return None
+        if best is None:
+            return None
+    cur = dict(cur, steps=list(cur['steps'][:best[2]['fail_step'] + 1]))
+    best = shows(cur) or best
+    changed = True
+    while changed:
+        changed = False
+        for i in reversed(range(len(cur['steps']))):
+            cand = dict(cur, steps=cur['steps'][:i] + cur['steps'][i + 1:])
+            got = shows(cand)
+            if got is not None:
+                cur, best, changed = cand, got, True
+    return best
+
+
+def _encode_all(drv, hs):
+    lines = []
+    for h in hs:
+        if 'abstract' in h:
+            lines.append(h['abstract'])
+        lines.extend(st[1] for st in h['steps'] if st[0] == 'decode')
+    lines = sorted(set(lines))
+    specs = {}
+    for ln, ans in zip(lines, drv.ask_many(lines)):
+        if not ans.startswith('ok '):
+            raise lean.LeanError('Spec.Sdr encoder refused %r: %s' % (ln, ans), '')
+        specs[ln] = lean.unhex(ans[3:]) if hasattr(lean, 'unhex') else list(bytearray.fromhex(ans[3:]))
+    return specs
+
+
 # ---------------------------------------------------------------------------------------------
 
 def _witnesses(run):
@@ -579,6 +1198,12 @@ def run(ctx):
         items.append((rec, v))
     run_.inverse_free(items)
 
+    # histories on ONE record object (hidden state between decoding, attribute changes and conversions)
+    global _last_run
+    _last_run = run_
+    quick = ctx.tier == 'quick'
+    ctx.extra['histories'] = _histories(run_, ctx.rng('c17-histories'), 3 if quick else 40, 60 if quick else 1500)
+
     if ctx.tier == 'thorough':
         _thorough(ctx, run_, rng)
     ctx.extra['signatures_seen'] = sorted(run_.sig_seen)
@@ -660,11 +1285,29 @@ def search(ctx):
             ctx.violate('C17:forward:model-mismatch', 'forward conversion differs from the proved model',
                         d['case'], expected=d['model'], observed=d['code'])
             d['explained_by'] = 'forward_formula'
+    if not ctx.violations and _last_run is not None:
+        # the expression tie (or a theorem) broke and no stream of run() has a failing input: the expressions of the
+        # conversion functions left the translator's grammar.  A frequent reason is state kept between calls, so dig
+        # deeper in the history class (Spec-judged, like run()): ten times the quick amount, longer histories
+        n = _histories(_last_run, ctx.rng('c17-histories-search'), 20, 1200, label='histories-search')
+        ctx.notes.append('search: %d further record histories (construction path x attribute change x re-decoding x '
+                         'interleaved conversions) judged by Spec.Sensor: %s'
+                         % (n, 'violation found' if ctx.violations else 'no violation'))
 
 
 def replay(ctx, v):
     case = v['case']
     drv = sdr_common.fast(ctx, 'drv_c17')
+    if case.get('op') == 'history':
+        c2 = ctx.__class__('C17', 'quick', 0)
+        formula, sign, _, _ = probe()
+        r2 = _Run(c2, drv, (formula, sign))
+        h = dict((k, x) for k, x in case.items() if k != 'fail_step')
+        print('history on one record object, construction path %s, initial factors %s' % (h['path'], h['init']))
+        _History(r2, h, _encode_all(drv, [h])).execute(verbose=True)
+        for y in c2.violations:
+            print('  VIOLATED: ' + y['what'])
+        return v['signature'] in [y['signature'] for y in c2.violations]
     if case.get('op') == 'none':
         got = _call(_mkrec(2, 0, 5, 7, 1, -1).convert_sensor_raw_to_value, None)
         print('convert_sensor_raw_to_value(None) -> %s; property: None' % (got,))
